@@ -156,3 +156,72 @@ Definition keys_polars_extend_3 : list string := ["if_else"; "mapv"; "trimstr"; 
 Definition keys_polars_arbitrary_arity : list string := ["&"; "*"; "+"; "and"; "coalesce"; "concat"; "fmax"; "fmin"; "maximum"; "minimum"; "or"; "|"].
 
 Definition keys_polars_literals_unpacked : list string := ["around"; "is_in"; "mapv"; "parse_date"; "parse_datetime"; "shift"].
+
+(* one-method class-e expressions (date/time family and the nested concat example excluded): expression -> (method, literal flags) *)
+Definition expr_keys : list (string * (string * list bool)) := [
+  ("x != y", ("!=", [false; false]));
+  ("row_id % q", ("%", [false; false]));
+  ("x %/% y", ("%/%", [false; false]));
+  ("x * y", ("*", [false; false]));
+  ("x ** y", ("**", [false; false]));
+  ("x + y", ("+", [false; false]));
+  ("-x", ("-", [false]));
+  ("x - y", ("-", [false; false]));
+  ("x / y", ("/", [false; false]));
+  ("row_id // q", ("//", [false; false]));
+  ("x < y", ("<", [false; false]));
+  ("x <= y", ("<=", [false; false]));
+  ("not a", ("==", [false; true]));
+  ("x == y", ("==", [false; false]));
+  ("x > y", (">", [false; false]));
+  ("x >= y", (">=", [false; false]));
+  ("z.abs()", ("abs", [false]));
+  ("a and b", ("and", [false; false]));
+  ("x.arccos()", ("arccos", [false]));
+  ("x.arccosh()", ("arccosh", [false]));
+  ("x.arcsin()", ("arcsin", [false]));
+  ("x.arcsinh()", ("arcsinh", [false]));
+  ("x.arctan()", ("arctan", [false]));
+  ("x.arctan2(y)", ("arctan2", [false; false]));
+  ("x.arctanh()", ("arctanh", [false]));
+  ("y.around(2)", ("around", [false; true]));
+  ("y.as_int64()", ("as_int64", [false]));
+  ("y.as_str()", ("as_str", [false]));
+  ("y.ceil()", ("ceil", [false]));
+  ("z.ceil()", ("ceil", [false]));
+  ("z %?% 2", ("coalesce", [false; true]));
+  ("z.coalesce(2)", ("coalesce", [false; true]));
+  ("z.coalesce_0()", ("coalesce", [false; true]));
+  ("g.concat(s2)", ("concat", [false; false]));
+  ("x.cos()", ("cos", [false]));
+  ("x.cosh()", ("cosh", [false]));
+  ("x.exp()", ("exp", [false]));
+  ("y.expm1()", ("expm1", [false]));
+  ("y.floor()", ("floor", [false]));
+  ("z.floor()", ("floor", [false]));
+  ("row_id.fmax(x)", ("fmax", [false; false]));
+  ("row_id.fmin(x)", ("fmin", [false; false]));
+  ("a.if_else(x, y)", ("if_else", [false; false; false]));
+  ("z.is_bad()", ("is_bad", [false]));
+  ("row_id.is_in({1, 3})", ("is_in", [false; true; true]));
+  ("y.is_inf()", ("is_inf", [false]));
+  ("y.is_nan()", ("is_nan", [false]));
+  ("z.is_null()", ("is_null", [false]));
+  ("x.log()", ("log", [false]));
+  ("x.log10()", ("log10", [false]));
+  ("x.log1p()", ("log1p", [false]));
+  ("g.mapv({""a"": 1, ""b"": 2, ""z"": 26}, 0)", ("mapv", [false; true; true; true; true; true; true; true]));
+  ("row_id.maximum(x)", ("maximum", [false; false]));
+  ("row_id.minimum(x)", ("minimum", [false; false]));
+  ("row_id.mod(2)", ("mod", [false; true]));
+  ("a or b", ("or", [false; false]));
+  ("row_id.remainder(2)", ("remainder", [false; true]));
+  ("y.round()", ("round", [false]));
+  ("z.sign()", ("sign", [false]));
+  ("x.sin()", ("sin", [false]));
+  ("x.sinh()", ("sinh", [false]));
+  ("x.sqrt()", ("sqrt", [false]));
+  ("x.tanh()", ("tanh", [false]));
+  ("g.trimstr(0, 2)", ("trimstr", [false; true; true]));
+  ("a.where(x, y)", ("where", [false; false; false]))
+].
